@@ -62,6 +62,15 @@ def gen(tier, rng):
             for lbuf in ([0, 3] if level else [3]):
                 add(api="deflate_stateless_multi", inp=a + b, level=level, wrap=0, lbuf=lbuf, prefill=i % 3, calls=[[n, n * 2 + 600, 2, 0], [2000, 5000, 0, 1]], meta={"family": "oneshot-append-same-context"})
                 add(api="deflate_stateless_multi", inp=b + a + c, level=level, wrap=0, lbuf=lbuf, prefill=i % 3, calls=[[2000, 5000, 2, 0], [n, n * 2 + 600, 2, 0], [700, 2000, 0, 1]], meta={"family": "oneshot-append-same-context"})
+    # (h) a level buffer at an unaligned address (no alignment is documented): the match history is re-initialised at every full flush and at
+    #     every one-shot piece after the first, so independence and round trip are checked there
+    for cls, n in [("text", 6000), ("records", 30000)]:
+        inp = igz.corpus(rng, cls, n)
+        for level in range(1, 4):
+            for lb in (7, 8, 9, 10):
+                add(api="deflate", inp=inp, level=level, wrap=[0, 1, 3][(level + lb) % 3], lbuf=lb, mem=(level + lb) % 3, prefill=lb % 3,
+                    calls=[[n // 3, 1 << 17, 2, 0], [n // 3, 1 << 17, [2, 1, 0][lb % 3], 0], [n, 1 << 17, 2, 0], [0, 1 << 17, 0, 1]], tail_ai=n, tail_ao=1 << 17, cap=60, meta={"family": "unaligned-level-buffer"})
+                add(api="deflate_stateless_multi", inp=inp, level=level, wrap=0, lbuf=lb, prefill=lb % 3, calls=[[n // 2, n + 600, 2, 0], [n, n + 600, 0, 1]], meta={"family": "unaligned-level-buffer"})
     return scns
 
 def run(tier, replay=None):
